@@ -94,6 +94,7 @@ static std::string check_ciphers(const KV &c) {
     bool set_n = kp != 0 || !nonce_in.empty();
     if (kp == 8 || set_n) {
         Buf n(nonce_in);
+        if (tonum(c, "pos") & 0x400) { Buf junk(Bytes(16, 0xC7)); o->set_nonce(junk.p, 16); }    // a full nonce was in place before
         o->set_nonce(n.nn(), n.n);
         if (nonce_in.size() >= 16) nonce.assign(nonce_in.begin(), nonce_in.begin() + 16);
         else memcpy(nonce.data() + 16 - nonce_in.size(), nonce_in.data(), nonce_in.size());
